@@ -122,6 +122,26 @@ def norm_pred(cond, value):
             rel, c2 = ("==", c) if tv else ("!=", c)
         else:
             rel, c2 = ("!=", c) if tv else ("==", c)
+        # canonical orientation: the more dynamic side (an atomic observation, then a closure parameter) goes left
+        def rank(x):
+            if x is None:
+                return 0
+            if any(y[0] in ("rmw", "aload") for y in walk(x)):
+                return 3
+            if x[0] == "param" and "{closure" in str(x[1]):
+                return 2
+            if x[0] == "const":
+                return 0
+            return 1
+        if rank(R) > rank(L):
+            # L - R rel c2   <=>   R - L rel' c2'
+            if rel == "<":
+                rel, c2 = ">=", -c2 + 1
+            elif rel == ">=":
+                rel, c2 = "<", -c2 + 1
+            else:
+                c2 = -c2
+            L, R = R, L
         return ("cmp", L, R, rel, c2)
     if e[0] == "discr":
         x = e[1]
